@@ -216,6 +216,51 @@ impl Ranking {
         }
     }
 
+    /// C06 on the whole e-commerce corpus: far beyond the candidate cap (soundness), and with a
+    /// limit of 400 (|store| <= 10*limit: completeness against the unlimited corpus store).
+    fn verdicts_corpus(&self, cx: &mut Cx, lang: &'static str) {
+        let recs = corpus_recs();
+        let limit = *cx.rng.pick(&[1usize, 3, 10, 50, 400]);
+        let st = St::build_sentinel(lang, &recs, limit);
+        for _ in 0..6 {
+            let t = cx.rng.pick(&recs).1.clone();
+            let q = match cx.rng.below(4) {
+                0 => t.chars().take(cx.rng.range(1, 3)).collect::<String>(),
+                _ => gen::related_query(&mut cx.rng, lang, &st.store.lang, &t),
+            };
+            cx.ctx(format!("C06 corpus lang={} limit={} q={:?}", lang, limit, q));
+            let got = st.search(&q);
+            cx.eval();
+            cx.count("corpus-store searches");
+            let ids: BTreeSet<usize> = got.iter().map(|h| h.0).collect();
+            if got.len() > limit || ids.len() != got.len() {
+                cx.fail("more-hits-than-limit-or-duplicate", json!({"lang": lang, "store": "e-commerce corpus", "limit": limit, "query": q, "got": got}));
+            }
+            for h in got.iter().take(12) {
+                let rec = recs.iter().find(|r| r.0 == h.0).cloned();
+                let sh = rec.as_ref().map(|r| St::build_sentinel(lang, &[r.clone()], 1).search(&q)).unwrap_or_default();
+                cx.eval();
+                if sh.len() != 1 || sh[0] != *h {
+                    cx.fail("hit-differs-from-solo-store", json!({"lang": lang, "store": "e-commerce corpus", "limit": limit, "query": q, "hit": h, "solo_store_result": sh}));
+                }
+            }
+            if recs.len() <= 10 * limit {
+                let all = crate::props::finds::with_corpus_store(lang, |unl, _| unl.search(&q));
+                let exp: Hits = all.iter().take(limit).cloned().collect();
+                cx.eval();
+                cx.count("corpus-store searches compared with the unlimited corpus store");
+                // corpus ratings are not pairwise distinct: compare as sets of (id, title) unless the cut is clean
+                let cut_clean = all.len() <= limit;
+                if (cut_clean && exp != got && exp.iter().cloned().collect::<BTreeSet<_>>() != got.iter().cloned().collect::<BTreeSet<_>>()) || got.len() != limit.min(all.len()) {
+                    cx.fail("corpus-not-the-first-limit-of-unlimited", json!({"lang": lang, "limit": limit, "query": q, "got_ids": got.iter().map(|h| h.0).collect::<Vec<_>>(), "expected_ids": exp.iter().map(|h| h.0).collect::<Vec<_>>()}));
+                }
+            }
+            if !got.is_empty() {
+                cx.key(hparts(&[lang, &q, &limit.to_string(), "corpus"]));
+            }
+        }
+    }
+
     fn order(&self, cx: &mut Cx, lang: &'static str) {
         let corpus = corpus_recs();
         let similar = cx.rng.chance(1, 2);
@@ -420,7 +465,10 @@ impl Ranking {
 
     fn empty(&self, cx: &mut Cx, lang: &'static str) {
         let words = ["metal", "mailbox", "b", "a", "aa", "ab", "Zed", "für", "élan", "Ёж", "éclair", "e\u{301}clair", "zz", "straße", "strasse"];
-        let n = cx.rng.below(13);
+        let n = if cx.rng.chance(1, 6) { cx.rng.range(13, 60) } else { cx.rng.below(13) };
+        if n > 12 {
+            cx.count("stores of 13-60 records");
+        }
         let distinct = cx.rng.chance(1, 3);
         let mk = |rng: &mut Rng, i: usize| -> Rec {
             let t = format!("{}{}{}", rng.pick(&words), if rng.chance(1, 2) { " " } else { "" }, if rng.chance(1, 2) { *rng.pick(&words) } else { "" });
@@ -542,7 +590,7 @@ impl Prop for Ranking {
     }
     fn streams(&self) -> Vec<Stream> {
         match self.0 {
-            Which::Verdicts => vec![Stream::new("stores", 6400, 64000)],
+            Which::Verdicts => vec![Stream::new("stores", 6400, 64000), Stream::new("corpus", 48, 960)],
             Which::Order => vec![Stream::new("stores", 3200, 32000)],
             Which::Rules => vec![Stream::new("rules", 8400, 84000)],
             Which::Empty => vec![Stream::new("stores", 32000, 320000)],
@@ -550,10 +598,10 @@ impl Prop for Ranking {
     }
     fn floors(&self) -> Vec<(&'static str, u64, u64)> {
         match self.0 {
-            Which::Verdicts => vec![("truncated (more matches than limit)", 200, 2000), ("beyond the 10x cap (soundness only)", 100, 1000), ("limit 0", 50, 500), ("selection buffer refilled (matches >= 2*limit)", 100, 1000), ("store with tied ratings (set comparison)", 50, 500), ("empty query", 50, 500)],
+            Which::Verdicts => vec![("truncated (more matches than limit)", 200, 2000), ("beyond the 10x cap (soundness only)", 100, 1000), ("limit 0", 50, 500), ("selection buffer refilled (matches >= 2*limit)", 100, 1000), ("store with tied ratings (set comparison)", 50, 500), ("empty query", 50, 500), ("corpus-store searches", 100, 2000), ("corpus-store searches compared with the unlimited corpus store", 10, 200)],
             Which::Order => vec![("pair stores", 2000, 20000), ("permuted stores", 2000, 20000), ("searches with >= 2 hits", 300, 3000), ("truncated lists compared across permutations", 30, 300), ("stores of similar words", 500, 5000)],
             Which::Rules => vec![("rule exact>typo", 500, 5000), ("rule both>one", 500, 5000), ("rule prefix: exact>tail", 500, 5000), ("rule adjacent>gap", 500, 5000), ("rule first>second", 500, 5000), ("rule identical titles: rating decides", 300, 3000), ("rule equal rating: shorter title first", 300, 3000), ("rule function word: content word first", 1000, 10000)],
-            Which::Empty => vec![("searches after further adds", 1000, 10000), ("truncated lists with tied ratings", 500, 5000), ("stores with distinct ratings", 500, 5000), ("limit 0", 100, 1000)],
+            Which::Empty => vec![("searches after further adds", 1000, 10000), ("truncated lists with tied ratings", 500, 5000), ("stores with distinct ratings", 500, 5000), ("limit 0", 100, 1000), ("stores of 13-60 records", 1000, 10000)],
         }
     }
     fn ratios(&self) -> Vec<(&'static str, &'static str, f64, f64)> {
@@ -562,9 +610,10 @@ impl Prop for Ranking {
             _ => vec![],
         }
     }
-    fn run(&self, cx: &mut Cx, _stream: &str, idx: u64) {
+    fn run(&self, cx: &mut Cx, stream: &str, idx: u64) {
         let lang = LANGS[(idx % 7) as usize];
         match self.0 {
+            Which::Verdicts if stream == "corpus" => self.verdicts_corpus(cx, if idx % 2 == 0 { "en" } else { "none" }),
             Which::Verdicts => self.verdicts(cx, lang),
             Which::Order => self.order(cx, lang),
             Which::Rules => self.rules(cx, lang),
